@@ -58,7 +58,11 @@ def build_coq(clean=False):
         sh("rm -f *.vo *.vok *.vos *.glob .*.aux Makefile Makefile.conf .Makefile.d", cwd=COQ)
     if not os.path.exists(os.path.join(COQ, "Makefile")):
         sh("coq_makefile -f _CoqProject -o Makefile", cwd=COQ)
-    _, out = sh("timeout 3000 make -j%d" % NCPU, cwd=COQ)
+    # -k: a broken proof in one property file must not hide the others; what a check needs is
+    # verified afterwards (Entry.vo for the model, P<id>.v compiled by the check itself)
+    _, out = sh("timeout 3000 make -k -j%d" % NCPU, cwd=COQ, check=False)
+    if not os.path.exists(os.path.join(COQ, "Entry.vo")):
+        raise BuildError("make (coq model)", out)
     return out
 
 
@@ -269,7 +273,7 @@ def _run_model_shard(lines, ids):
     while todo:
         p = subprocess.run([os.path.join(OCAML, "modeldrv")], input="".join(l for _, l in todo),
                            stdout=subprocess.PIPE, stderr=subprocess.PIPE, text=True,
-                           env=dict(os.environ, OCAMLRUNPARAM="l=4G", VERIF_MODEL_TIMEOUT_S=os.environ.get("VERIF_MODEL_TIMEOUT_S", "5")))
+                           env=dict(os.environ, OCAMLRUNPARAM="l=4G", VERIF_MODEL_TIMEOUT_S=os.environ.get("VERIF_MODEL_TIMEOUT_S", "3")))
         got = 0
         for line in p.stdout.splitlines():
             if "\t" not in line:
